@@ -226,6 +226,27 @@ def run(tier, seed):
         acc.check('only_construct_errors', src, datas=datas, kw={})
         for d in datas[:8]:
             cases.append(dict(src=src, op='parse', data=d))
+    # lookups keyed by what a composite parsed (lists, containers: unhashable), on parse and on build
+    for src in ['Mapping(Array(2, Byte), {"a": 1})', 'Mapping(Struct("x"/Byte), {"a": 1})', 'Mapping(PrefixedArray(Byte, Byte), {"a": 0})',
+                'Struct("m"/Mapping(GreedyRange(Byte), {"a": 1}), "t"/Pass)', 'Mapping(Sequence(Byte, Byte), {"k": 3})']:
+        datas = [b'\x01\x02', b'\x00', b'', b'\x02\x01\x02\x03', b'\xff' * 4] + [G.rand_bytes(rng, 3) for _ in range(3)]
+        acc.check('only_construct_errors', src, datas=datas, kw={})
+        objs = [dict(m=[1, 2], t=None), dict(m=dict(x=1), t=None)] if src.startswith('Struct') else [[1, 2], dict(x=1), [[1]], []]
+        acc.check('only_construct_errors_build', src, objs=objs, kw={})
+        for d in datas[:5]:
+            cases.append(dict(src=src, op='parse', data=d))
+    # two-feature interactions: every wrapper class over every kind of inner construct, on what it builds, cut short, and mutated
+    for src, v in C.pairs():
+        if not C.constructible(src):
+            continue
+        try:
+            d = C.get(src).build(v)
+        except BaseException:
+            continue
+        datas = [d, d[:-1], d[:len(d) // 2], d + b'\x00', G.mutate(rng, d), G.mutate(rng, d), b'\xff' * (len(d) + 1)]
+        acc.check('only_construct_errors', src, datas=datas, kw={})
+        cases.append(dict(src=src, op='parse', data=d[:-1]))
+        cases.append(dict(src=src, op='parse', data=datas[4]))
     # every codec name a string field may be given: common, uncommon (their own error classes), non-text and unknown ones
     for enc in ['utf8', 'utf16', 'utf32', 'ascii', 'latin1', 'cp1252', 'utf_7', 'utf_16_be', 'utf_32_le', 'shift_jis', 'gb18030', 'big5', 'euc_kr',
                 'punycode', 'idna', 'raw_unicode_escape', 'unicode_escape', 'hex', 'base64', 'rot13', 'zlib', 'undefined', 'utf-9', 'no-such-codec']:
